@@ -4,6 +4,8 @@ import json, subprocess, os
 root = os.path.dirname(os.path.abspath(__file__))
 checks = json.load(open(os.path.join(root, 'checks.json')))
 props = [json.loads(l) for l in open(os.path.join(root, 'properties.jsonl'))]
+import glob
+checks['checks'] = [json.load(open(f)) for f in sorted(glob.glob(os.path.join(root,'checks.d','C*.json')))]
 claimed = {c['id'] for c in checks['checks']}
 man = {
  "version": 1,
